@@ -1,6 +1,7 @@
 import Mathlib.Tactic.Tauto
 import PeptVerif.Lemmas.ConcreteEnv
 import PeptVerif.Lemmas.ConcreteBridge
+import PeptVerif.Lemmas.ConcreteKeys
 import PeptVerif.Lemmas.DecText
 import PeptVerif.Props.C18
 /-!
@@ -125,6 +126,69 @@ theorem condense_mass_label_concrete (env : Pept.Env) (mono : Bool) (a n : Annot
       |outMass (envOf env mono) c s p - x| ≤ (writtenL c s : ℚ) * halfUlp p +
         (droppedL (envOf env mono) lm c : ℚ) * threshold + δ * ((outsideMods c).length : ℚ) :=
   C18.condense_mass_label_delta (envOf env mono) (coherent_envOf env mono) a n p m0 L lm δ hiso hl hr hint hres h hδ
+
+/-- what is assumed about the RESOLVED modification masses, in terms of the resolver alone: a plain shift is weighed as that
+shift; a value with a composition has a tabulated mass within `δ` of the mass of that composition under the generated
+element table (C03 / C10's subject; ≈ 1e-6 for Unimod / PSI-MOD names on /repo), and its element keys fit in 8 bytes -/
+structure ResolverClose (env : Pept.Env) (mono : Bool) (δ : ℚ) : Prop where
+  nonneg : 0 ≤ δ
+  delta : ∀ v d, (env.res v).delta = .ok (some d) → muOf env mono v = d
+  comp : ∀ v c, (env.res v).delta = .ok none → (env.res v).comp = .ok c →
+    SmallKeys c ∧ |muOf env mono v - chemMassL (fun e => (elemMass mono e).getD 0) c| ≤ δ
+
+/-- from the resolver-level hypothesis to the per-modification tolerance of the abstract theorem -/
+theorem modMass_close (env : Pept.Env) (mono : Bool) (δ : ℚ) (h : ResolverClose env mono δ) (m : Mod)
+    (hres : isBad (envOf env mono) m = false) :
+    |AbsMass.modMass (envOf env mono) m - AbsMass.modMass (envC (envOf env mono)) m| ≤ δ * |(m.mult : ℚ)| := by
+  have hmu : (envOf env mono).mu = muOf env mono := rfl
+  have hmr : (envOf env mono).modRes = modResOf env := rfl
+  have hem : (envOf env mono).em = emOf mono := rfl
+  unfold AbsMass.modMass envC
+  simp only [hmu, hmr, hem]
+  unfold isBad at hres
+  rw [hmr] at hres
+  unfold modResOf at hres ⊢
+  cases hd : (env.res m.val).delta with
+  | error e => rw [hd] at hres; simp at hres
+  | ok od =>
+    cases od with
+    | some d =>
+      simp only [h.delta m.val d hd, sub_self, abs_zero]
+      exact mul_nonneg h.nonneg (abs_nonneg _)
+    | none =>
+      rw [hd] at hres
+      cases hc : (env.res m.val).comp with
+      | error e => rw [hc] at hres; simp at hres
+      | ok c =>
+        obtain ⟨hk, hb⟩ := h.comp m.val c hd hc
+        simp only [chemMass_decodeComp mono c hk]
+        rw [← sub_mul, abs_mul]
+        exact mul_le_mul_of_nonneg_right hb (abs_nonneg _)
+
+/-- **C18's mass clause with an isotope label over the concrete tables, hypotheses on the resolver only**: every modification
+of the condensed annotation resolves, ints weigh themselves, the resolved masses are `δ`-close to their compositions
+(`ResolverClose`). Bound: `k·½·10⁻ᵖ + z·10⁻⁶ + δ·Σ|multiplier|` over the modifications written outside residue positions. -/
+theorem condense_mass_label_resolved (env : Pept.Env) (mono : Bool) (a n : Annotation) (p : ℕ) (m0 : Mod) (L : List Mod)
+    (lm : LabelMap) (δ : ℚ) (hclose : ResolverClose env mono δ)
+    (hiso : a.isotope = some (m0 :: L)) (hl : parseIsotopeMods (envOf env mono).knownLabel (m0 :: L) = .ok lm)
+    (hr : InRange a) (hint : ∀ i : ℤ, (envOf env mono).mu (.int i) = i)
+    (hres : ∀ c, condenseStatic a = .ok c → ∀ m ∈ allMods c, isBad (envOf env mono) m = false)
+    (h : condenseToMassAnn (envOf env mono) a p = .ok n) :
+    ∃ c s x, condenseStatic a = .ok c ∧ shiftsOf (envOf env mono) c p = .ok s ∧ n = render c s p ∧
+      massOf (envOf env mono) a = .ok x ∧
+      |outMass (envOf env mono) c s p - x| ≤ (writtenL c s : ℚ) * halfUlp p +
+        (droppedL (envOf env mono) lm c : ℚ) * threshold + δ * multSum (outsideMods c) := by
+  obtain ⟨c, s, x, hcd, hs, hn', hx, hb⟩ :=
+    C18.condense_mass_label (envOf env mono) (coherent_envOf env mono) a n p m0 L lm hiso hl hr hint hres h
+  refine ⟨c, s, x, hcd, hs, hn', hx, ?_⟩
+  have hsl := slack_leW (envOf env mono) c δ (fun m hm => by
+    apply modMass_close env mono δ hclose m
+    apply hres c hcd
+    unfold outsideMods at hm
+    unfold allMods
+    simp only [List.mem_append] at hm ⊢
+    tauto)
+  linarith
 
 end C18Concrete
 end Pept
